@@ -151,7 +151,7 @@ func (c *Ctx) assert(cond *Term, msg string) {
 	}
 	neg := Not(cond)
 	regions := ex.regionsFor(c, "assert:"+msg)
-	q := append(append([]*Term{}, c.pc...), neg)
+	q := []*Term{neg}
 	for _, r := range regions {
 		q = append(q, Not(r.term))
 	}
@@ -164,7 +164,7 @@ func (c *Ctx) assert(cond *Term, msg string) {
 		}
 	}
 	if m == nil {
-		res, m, note = c.S.Check(q, true)
+		res, m, note = c.S.CheckPC(c.pc, q, true)
 		c.st.AssertQueries++
 	}
 	switch res {
@@ -174,8 +174,7 @@ func (c *Ctx) assert(cond *Term, msg string) {
 		if len(regions) > 0 {
 			// is the known region still violating here?
 			for _, r := range regions {
-				q2 := append(append([]*Term{}, c.pc...), neg, r.term)
-				r2, m2, _ := c.S.Check(q2, true)
+				r2, m2, _ := c.S.CheckPC(c.pc, []*Term{neg, r.term}, true)
 				if r2 == Sat {
 					ex.noteKnown(r.kf, c, m2)
 				}
